@@ -1,7 +1,7 @@
 (* C10 — queries are pure: answers never depend on earlier queries. *)
 From Coq Require Import Bool NArith List Lia Arith.
 Import ListNotations.
-From RsddV Require Import Base.Bdd Model.Wmc Model.Scratch Proofs.Scratch.
+From RsddV Require Import Base.Bdd Model.Wmc Model.Scratch Proofs.Scratch Proofs.ScratchCount.
 
 (* The memoised fold behind unsmoothed_wmc / evaluate / semantic_hash (any carrier, any weights):
    from any scratch state satisfying the fold invariant it returns the value of the plain
@@ -51,13 +51,17 @@ Theorem C10_queries_commute : forall (S : Type) add mul zero one (qs : list (que
 Proof. exact queries_commute. Qed.
 Print Assumptions C10_queries_commute.
 
-(* count_nodes (top-down marking), the bound folds of the optimisation queries, conditioning and
-   smoothing are modelled (Model/Scratch.v count_public; C12; C01; C08) and tied to the code by the
-   correspondence; their purity statement is kept here as an explicit, not yet proved, statement. *)
-Definition C10_count_nodes_pure_statement : Prop :=
-  forall (S : Type) p (s : scratch S), all_empty S s ->
-    all_empty S (snd (count_public S p s)) /\
-    exists l, NoDup l /\ (forall n, In n l <-> In n (nodes p)) /\ fst (count_public S p s) = length l.
+(* count_nodes (top-down marking with a usize in the scratch slot): from an all-empty scratch state
+   it returns the number of distinct reachable nodes and leaves every slot empty again *)
+Theorem C10_count_nodes_pure : forall (S : Type) p (s : scratch S), all_empty S s ->
+  all_empty S (snd (count_public S p s)) /\
+  exists L, NoDup L /\ (forall n, In n L <-> In n (nodes p)) /\ fst (count_public S p s) = length L.
+Proof. exact count_public_pure. Qed.
+Print Assumptions C10_count_nodes_pure.
+
+(* The bound folds of the optimisation queries (bdd_fold), conditioning and smoothing are modelled
+   as pure functions (C12; C01; C08) and tied to the code by the stateful correspondence and the
+   is_scratch_cleared / fresh-copy oracle. *)
 
 Example C10_nonvacuous :
   let shared := BN false 2%N BF BT in
